@@ -82,8 +82,8 @@ def specOfProg (sx : String) : String :=
   | some p =>
     match p.stmts.mapM toPStmt with
     | some ss => "eq ok (prog" ++ canonStmts ss ++ ")"
-    | none => "any"
-  | none => "any"
+    | none => "nopanic"
+  | none => "nopanic"
 
 def modelOfProg (src : String) : String :=
   match Scanner.scan src with
@@ -92,7 +92,7 @@ def modelOfProg (src : String) : String :=
     | .ok ss => "ok (prog" ++ canonStmts ss ++ ")"
     | .err => "perr"
     | .skip => "MODEL-SKIP"
-    | .fuel => "MODEL-FUEL"
+    | .fuel => "HANG"          -- the model predicts that the real parser does not end (C01Parse.parseProgramTokens_total: never, with the table as it is)
   | .panic => "MODEL-SKIP"
   | .fuel => "MODEL-SKIP"
 
